@@ -145,6 +145,8 @@ class QueueElement:
         # print("decoding", address_repr(buf, 0, " "))
         if buf[0] not in (0x16, 0x0A, 0x08, 0x09):
             return False  # unknown/unsupported "chunk" of data
+        if buf[0] == 0x16 and len(buf) < 3:
+            return False  # service data too short to hold a 16-bit UUID
         if buf[0] == 0x0A and len(buf) == 2:  # if data is the device's TX-ing PA Level
             self.pa_level = struct.unpack("b", buf[1:2])[0]
         if buf[0] in (0x08, 0x09):  # if data is a BLE device name
